@@ -310,3 +310,16 @@ CHECKS["C17"]["text"] = CHECKS["C17"]["text"] + " Also: reader helpers are summa
 CHECKS["C18"]["text"] = CHECKS["C18"]["text"] + " Also: absence is never decided by truthiness - any()/all()/filter() over container values in the emitter judge each element with is_absent / isinstance Absent (R18.10)."
 CHECKS["C19"]["text"] = CHECKS["C19"]["text"] + " Also: an extension test made through a helper is summarised as candidates ∩ allowed with candidates ⊆ {last suffix, last two joined} (R19.2); the digest function hashes the file's bytes as read (R19.5); names are not shortened with strip() of a word (R19.9)."
 CHECKS["C20"]["text"] = CHECKS["C20"]["text"] + " Also: no Parser method does whole-list work on self.tokens (R20.6b); receipt records carry no value of unknown kind - an Any parameter, a parse_value() result - unless guarded by isinstance or converted (R20.5e); R20.1 accepts `pos = <m>.end()` after a module-level regex of minimum width >= 1 matched at pos."
+
+# seventh seeding round and the RK refactoring corpus (second build session, later)
+CHECKS["C02"]["text"] = CHECKS["C02"]["text"] + " The frontmatter delimiters the reader accepts are those the emitter writes (R02.13)."
+CHECKS["C03"]["text"] = CHECKS["C03"]["text"] + " Text the parser rebuilds from tokens for verbatim emission never reads a token's normalized_from (R03.12)."
+CHECKS["C04"]["text"] = CHECKS["C04"]["text"] + " The parser does not re-decide the kind of a scalar: parse_value / parse_list_item return a boolean / null made there only in a BOOLEAN / NULL token branch (R04.12)."
+CHECKS["C05"]["text"] = CHECKS["C05"]["text"] + " In parse_literal_zone no rewriting call touches what flows into LiteralZoneValue(content, info_tag, fence_marker); only .strip() of the info tag (R05.10)."
+CHECKS["C06"]["text"] = CHECKS["C06"]["text"] + " Path.resolve / absolute / os.path.abspath count as reads of the working directory in the pure pipeline (the two tool path validators are allow-listed with reasons)."
+CHECKS["C07"]["text"] = CHECKS["C07"]["text"] + " A receipt filed without a position is stamped by a loop over everything appended since its producer was called, or before anything else can be appended (R07.7)."
+CHECKS["C08"]["text"] = CHECKS["C08"]["text"] + " Every kind -> Python type table of the validation modules has the documented rows (sibling agreement, R08.9)."
+CHECKS["C09"]["text"] = CHECKS["C09"]["text"] + " Module- and class-level state is never written after import (R09.9 = C06 R06.3): validating twice gives the same answer."
+CHECKS["C13"]["text"] = CHECKS["C13"]["text"] + " Sibling kind tables agree with TYPE's own (R13.9 = R08.9)."
+CHECKS["C15"]["text"] = CHECKS["C15"]["text"] + " The parser does not re-decide the kind of a scalar (R15.9 = R04.12): a sealed text read back with another kind of value would not verify."
+CHECKS["C20"]["text"] = CHECKS["C20"]["text"] + " R20.5c also covers a str-only method called directly on a node's value (`child.value.strip()`) outside an isinstance(..., str) guard."
